@@ -59,12 +59,13 @@ reg("C07", "fault_enumeration",
 
 reg("C02", "exploration",
     "F4: renewal histories (1..2 certificates, 1..8 issuances each) in which the CA's chain length (1..4) and lifetime change per issuance, "
-    "with restarts and removed files; F6: account histories (contacts, key types, bindings and endpoints change between saves). Oracle: after every "
+    "with restarts and removed files; F4t: \"twins\" (one certificate requested with two key types: ids and file names differ by the key type only; all ordered "
+    "pairs of key types x named/unnamed x kp_reuse x initial table orders; orders are told apart by the type of the finalized key); F6: account histories (contacts, key types, bindings and endpoints change between saves). Oracle: after every "
     "completed write through the storage seam the real file is read back and must equal exactly the bytes written; after every successful attempt "
     "the certificate file equals the CA's served body byte for byte and the key file is the CSR's key. Non-trivial = a run in which an existing "
     "file was rewritten.",
-    quick=[("F4", 1000), ("F4c", 48), ("F6", 250), ("F1", 500)],
-    thorough=[("F4", 50000), ("F4c", 48), ("F6", 10000), ("F6x", 20000), ("F1", 50000)])
+    quick=[("F4", 1000), ("F4c", 48), ("F4t", 240), ("F6", 250), ("F1", 500)],
+    thorough=[("F4", 50000), ("F4c", 48), ("F4t", 240), ("F6", 10000), ("F6x", 20000), ("F1", 50000)])
 
 reg("C06", "exploration",
     "F4: renewal histories over up to 4000 virtual days: CA lifetimes from already-expired to 10 years, renew_delay/random_early_renew from 0s to "
@@ -102,11 +103,11 @@ reg("C13", "exploration",
 
 reg("C05", "exploration",
     "F1 (identifier swarm: several names with different challenge types, CA lists authorizations/challenges in any order, offers subsets, pre-valid authorizations, "
-    "7 account key types) and F1w (a name and its wildcard with every (base, wildcard) challenge-type pair in both declaration orders). Oracle: the CA's own computation "
+    "7 account key types), F1w (a name and its wildcard with every (base, wildcard) challenge-type pair in both declaration orders), and F6k/F6 (account key roll-overs between all ordered pairs of key types and edit/restart histories: the proof must use the key the CA holds when the hooks run, not a superseded one). Oracle: the CA's own computation "
     "of key authorization / dns-01 digest / acmeIdentifier text / reverse-DNS name from the registered JWK and issued token vs what the hook process received; hook type == "
     "the type configured for the identifier the authorization is for; challenge POST only after the hooks exited successfully; no hook for an already valid authorization. "
     "Non-trivial = at least one authorization of a mapped order was judged.",
-    quick=[("F1", 1200), ("F1w", 360)], thorough=[("F1", 80000), ("F1w", 20000)],
+    quick=[("F1", 1200), ("F1w", 360), ("F6k", 42), ("F6", 200)], thorough=[("F1", 80000), ("F1w", 20000), ("F6k", 42), ("F6", 10000), ("F6x", 10000)],
     assumptions=["when a name and its wildcard use the same challenge type either configuration entry may be looked up (only type and proof values are judged)",
                  "no hook and no challenge POST when the CA does not offer the configured type is correct behaviour"])
 
